@@ -288,6 +288,11 @@ func checkC15(c *Case) (*Violation, caseInfo) {
 				// every third page: the first letter of the block is wrapped in inline markup (a drop cap)
 				inner = "<span>" + html.EscapeString(text[:1]) + "</span>" + html.EscapeString(text[1:])
 			}
+			if j := strings.LastIndex(inner, " "); len(c.HTML)%5 == 2 && j > 0 {
+				// every fifth page: the last two words of the block are kept together by a no-break
+				// space (widow control); what is displayed is the title all the same
+				inner = inner[:j] + "&nbsp;" + inner[j+1:]
+			}
 			kicker := ""
 			if len(c.HTML)%4 == 1 {
 				// every fourth page: another (short) heading stands directly before the block
